@@ -15,6 +15,7 @@ use std::sync::{Arc, Mutex};
 use std::task::{Context, Poll, Wake, Waker};
 
 pub const SECTOR: usize = 512;
+pub const MAX_FILE_SIZE: u64 = 4 << 30;
 
 // ---------------------------------------------------------------------------
 // PageFile: persistent (cheaply clonable) sparse byte file
@@ -743,6 +744,16 @@ impl Core {
                 }
             }
         }
+        // the simulated file system has a maximum file size (EFBIG); a request
+        // beyond it is also worth a note: the image layouts used here never
+        // come near it, so such an offset was derived from bad metadata
+        if kind == ReqKind::Write && off.saturating_add(len as u64) > MAX_FILE_SIZE && fail.is_none() {
+            fail = Some("sim: file too large (EFBIG)");
+            self.anomaly(
+                "write_beyond_max_file_size",
+                format!("write f{} off={:#x} len={}", file, off, len),
+            );
+        }
         if kind == ReqKind::Punch && len == 0 && fail.is_none() {
             // fallocate(2): EINVAL for len == 0
             fail = Some("sim: EINVAL (zero-length fallocate)");
@@ -750,6 +761,8 @@ impl Core {
         if let Some(what) = fail {
             let name = if what.contains("not supported") {
                 "punch_unsupported"
+            } else if what.contains("EFBIG") {
+                "efbig"
             } else if what.contains("no space") {
                 "enospc"
             } else if what.contains("EINVAL") {
